@@ -856,7 +856,7 @@ def run(ctx):
     # --- T3 -------------------------------------------------------------------------------
     t3_ok, t3_data, t3_msg = _timed(ctx, "t3", t3, ctx)
     # --- ledger ---------------------------------------------------------------------------
-    n, maxlen = (700, 10) if ctx.tier == "quick" else (8000, 25)
+    n, maxlen = (500, 10) if ctx.tier == "quick" else (8000, 25)
     cases = corpus() + [gen_case(rnd, ctx, maxlen) for _ in range(n)]
     for c in cases[:1] + cases[-2:]:
         ctx.sample(c)
@@ -870,7 +870,7 @@ def run(ctx):
     _timed(ctx, "crash", crash_stream, ctx, programs)
     _timed(ctx, "finalizers", finalizer_stream, ctx)
     _timed(ctx, "descriptor", descriptor_stream, ctx)
-    nn, nlen = (110, 25) if ctx.tier == "quick" else (1500, 40)
+    nn, nlen = (80, 25) if ctx.tier == "quick" else (1500, 40)
     ncases = native_corpus() + [dict(ops=[gen_native_op(rnd) for _ in range(rnd.randint(5, nlen))]) for _ in range(nn)]
     _timed(ctx, "native", native_stream, ctx, ncases)
     if ctx.tier == "thorough":
